@@ -128,7 +128,7 @@ func bufferOwnership(r *core.Report, rule string, run *core.Func) {
 				}
 			}
 		}
-		key := fmt.Sprintf("%s#handoff@%d(%s)", run.Key, i, h.obj.Name())
+		key := fmt.Sprintf("%s#handoff@%d(%s)", run.Key, i, tokenOrName(run, h.obj))
 		if bad != nil {
 			path := g.PathAvoiding(h.node, func(x *core.GNode) bool { return x == bad }, func(x *core.GNode) bool { return x.Kind == core.KStmt && isFresh(x, h.obj) })
 			r.Violation(rule, key, pos(r, bad.Ast), fmt.Sprintf("after the slice %s was handed to the flusher goroutine it is appended to / re-sliced at %s without a fresh make in between: the reader overwrites the elements of a group the consumer may not have processed yet", h.obj.Name(), p.Rel(bad.Ast.Pos())), g.PathStrings(path)...)
